@@ -1,6 +1,7 @@
 import LanceModel.C20.ZoneLemmas
 import LanceModel.C20.BloomLemmas
 import LanceModel.C20.NgramLemmas
+import LanceModel.C20.TrainLemmas
 /-
 C20 — "Zone-map, bloom-filter and n-gram indices return a superset of the rows that truly match every predicate they
 accept, so the final filtered result equals the result without the index."
@@ -99,6 +100,27 @@ theorem train_counterexample_dense : ¬ train_covers_full := by
   revert this
   decide
 
+/-- **train_covers_partial**: on ONE fragment with dense offsets 0,1,2,… (no deleted row, no fragment boundary — exactly the
+    region in which none of the three recorded training defects can occur) the loop covers every row, for every zone
+    size: row `i` lies in the zone of chunk `i / z`, which received its value. -/
+theorem train_covers_partial {α : Type} (z : Nat) (hz : 0 < z) (f : Nat) (l : List α) (i : Nat) (v : α)
+    (hv : l[i]? = some v) : Covered (train z (l.map (fun v => (f, v)))) f i v := by
+  rw [train_single f z hz l]
+  obtain ⟨t, ht, h1, h2, h3, h4⟩ := expected_covers (f := f) hz l.length 0 l i v (Nat.le_refl _) hv
+  exact ⟨t, ht, h1, by simpa using h2, by simpa using h3, h4⟩
+
+example : train 2 ([V.num 5, .null, .num 7].map (fun v => (3, v))) =
+    [⟨3, 0, 2, [.num 5, .null]⟩, ⟨3, 2, 1, [.num 7]⟩] := by decide
+
+/-- **zone_superset_trained**: training + statistics + search on one dense fragment: a row that satisfies the predicate is
+    in the answer of the zone-map index built by `train`, for every column, zone size and predicate. -/
+theorem zone_superset_trained (z : Nat) (hz : 0 < z) (f : Nat) (l : List V) (q : Query) (i : Nat) (v : V)
+    (hv : l[i]? = some v) (hs : sat q v) :
+    (f, i) ∈ zoneSearch ((train z (l.map (fun v => (f, v)))).map zoneOf) q := by
+  obtain ⟨t, ht, hf, hlo, hhi, hmem⟩ := train_covers_partial z hz f l i v hv
+  have := zone_superset_built _ q t ht i v hmem hlo hhi hs
+  rwa [hf] at this
+
 /-! ## Bloom filter -/
 
 /-- **bloom_no_false_negative**: for ANY hash function, whatever was inserted into a split-block bloom filter with at
@@ -164,6 +186,15 @@ theorem bloom_superset {β : Type} [DecidableEq β] (hash : β → Nat) (nblocks
   refine ⟨bzoneOf hash nblocks t, ⟨⟨t, ht, rfl⟩, bloom_block_sound hash nblocks hn t q v hv hs⟩, ?_⟩
   simp only [zoneAddrs, List.mem_map, List.mem_range, bzoneOf]
   exact ⟨off - t.start, by omega, by simp; omega⟩
+
+/-- **bloom_superset_trained**: the same for the bloom-filter index built by `train` on one dense fragment -/
+theorem bloom_superset_trained {β : Type} [DecidableEq β] (hash : β → Nat) (nblocks : Nat) (hn : 0 < nblocks)
+    (z : Nat) (hz : 0 < z) (f : Nat) (l : List (Option β)) (q : BQuery β) (i : Nat) (v : Option β)
+    (hv : l[i]? = some v) (hs : bsat q v) :
+    (f, i) ∈ bloomSearch hash ((train z (l.map (fun v => (f, v)))).map (bzoneOf hash nblocks)) q := by
+  obtain ⟨t, ht, hf, hlo, hhi, hmem⟩ := train_covers_partial z hz f l i v hv
+  have := bloom_superset hash nblocks hn _ q t ht i v hmem hlo hhi hs
+  rwa [hf] at this
 
 /-! ## N-gram -/
 
